@@ -757,6 +757,10 @@ class StmtMixin:
                     post_iter(s3)
                 for k, inv in enumerate(invs):
                     self.oblige_spec('inv-keep.L%d.i%d' % (no, k), inv, s3, s, kind='inv-keep', old=self.entry, out=s3.out)
+                # `step` clauses: what must hold whenever an iteration ends WITHOUT leaving the loop (the body's locals are in scope);
+                # checked, never assumed
+                for k, cl in enumerate(spec.get('step', [])):
+                    self.oblige_spec('step.L%d.s%d' % (no, k), cl, s3, s, kind='inv-keep', old=self.entry, out=s3.out)
                 if variant0 is not None:
                     v1, sides = self.spec(spec['decreases'], s3, old=self.entry, out=s3.out)
                     self.oblige('term.L%d' % no, s3, z3.And(v1.z < variant0.z, variant0.z >= 0), s, kind='term', hyps_extra=sides,
